@@ -16,9 +16,11 @@ package main
 // request is addressed to the event's own destination and holds at most MaxBatchSize events, and the
 // queued-items gauge is back at zero.
 //
-// Sends run on the real conc pool (plain goroutines outside the scheduler): they only touch the recording
-// network and commutative metric updates, and Stop() joins them before the oracle reads anything, so the
-// verdict does not depend on when they run.
+// Sends are scheduled threads too: the overlay (check.conf POOLS) turns `d.dispatchPool.Go(f)` / `.Wait()` of
+// package transmit into vsched.PoolGo / PoolWait, so inside an exploration every sendBatch is a thread whose sync
+// operations are scheduling points, and "the batch taken by the tick is serialised only after another event was
+// appended for the same key" is one of the explored orders (a batch handed to the sender must not share storage
+// with the live batch). Outside an exploration (Stop() in the oracle) the real conc pool is used.
 
 import (
 	"bytes"
